@@ -165,6 +165,13 @@ let () = iter_lines (fun line ->
      | None -> print_endline "Stuck"
      | Some h' -> print_endline (show_list h' (nth1 l h) fuel))
   | "tr" :: bc :: cf :: bs :: al :: _ :: _ :: ops -> print_endline (trace bc cf bs al ops)
+  | cmd :: bc :: cf :: bs :: al :: _ :: _ :: ops when String.length cmd > 3 && String.sub cmd 0 3 = "tr@" -> print_endline (trace bc cf bs al ops)
+  | ["ctor"; bc; bs; al] ->
+    let c = zs bc and a = zs al in
+    let b = Gen_MemPoolConst.coq_CorrectBlockSize (zs bs) a c in
+    if PoolLayout.check_params c b a then print_endline "ok"
+    else if BinInt.Z.gtb b (BinInt.Z.div (zs "18446744073709551615") c) then print_endline "length_error"
+    else print_endline "Stuck"
   | "mg" :: rest ->
     let (a, b) = split_at_slash [] rest in
     let (l1, h1) = parse_list a and (l2, h2) = parse_list b in
